@@ -55,6 +55,10 @@ def proj_of(t, leaf):
     return None
 
 
+def is_sub_of(t, want):
+    return any(x == want for x in subterms(t))
+
+
 def option_fields(struct):
     """names of the Option-typed fields of a struct, read from /repo's source"""
     import glob
@@ -156,6 +160,35 @@ def run(ctx, prog):
                     return 'member %s is present in the source but written as absent' % nm
                 return None
             A.require('%s-claims/optional-member-%s-keeps-its-presence' % (kind, nm), ps, r_keep, replay=R('[roundtrip]'))
+
+        if kind == 'presentation':
+            # the members taken from the options (exp, nbf/iat, aud, custom claims) are present exactly when the option is: no default
+            # is filled in for an absent one and none is dropped
+            OF = S['JwtPresentationOptions']
+            pairs = (('exp', 'expiration_date'), ('issuance_date', 'issuance_date'), ('aud', 'audience'), ('custom', 'custom_claims'))
+
+            def r_opts(p, CF=CF, OF=OF, pairs=pairs):
+                c = p.payload()
+                if not (isinstance(c, VAgg) and len(c.fields) == len(CF)):
+                    return 'claims not built field-wise'
+                for cf, of in pairs:
+                    v = c.fields[CF.index(cf)]
+                    opt = ('field', ('deref', ('leaf', 'options')), OF.index(of), '')
+                    if isinstance(v, VAgg) and str(v.variant) == 'Some':
+                        if not p.took(opt, 'Some') or not (is_sub_of(p.term(v), opt) or ('options.%d.Some' % OF.index(of)) in term_str(p.term(v))):
+                            return 'claim %s is written although options.%s is absent (or not from it)' % (cf, of)
+                    elif isinstance(v, VAgg) and str(v.variant) == 'None':
+                        if not p.took(opt, 'None'):
+                            return 'claim %s is left out although options.%s is present' % (cf, of)
+                    else:
+                        t = strip(p.term(v))
+                        while isinstance(t, tuple) and t and t[0] == 'app' and re.search(r'Option<.*>::(map|cloned|as_ref)$|Clone>::clone$', t[1]):
+                            t = strip(t[2][0])
+                        if t != opt and t != ('deref', opt) and strip(t) != strip(opt):
+                            return 'claim %s is not options.%s carried over as it is' % (cf, of)
+                return None
+            A.require('presentation-claims/option-members-present-exactly-when-the-option-is', okn, r_opts,
+                      replay={'scenario': 'presentation_validation', 'cex': {'only': '[options]'}})
 
         f_into = prog.one(into_rx)
         ipaths, ex2 = A.paths(f_into)
@@ -384,12 +417,47 @@ def claims_serde_shape(ctx, prog, kind):
                detail='custom per-field deserialiser in the claims type (%s); native: %s' % (helpers[0][-120:], res.get('detail', '')[:300]), replay=rep))
 
 
+def derived_equality(ctx, prog):
+    """Equality of the credential / presentation data types is the compiler-derived structural one: the consistency check
+    (`vc.issuer == iss`, ...) and the round-trip oracle (`decoded == original`) both rest on it.  Every `PartialEq::eq` defined in the
+    credential and presentation modules must sit on a `#[derive(.. PartialEq ..)]` - its impl span is that token in /repo's source."""
+    from replay import run_replay
+    name = 'equality/credential-and-presentation-types-compare-structurally'
+    eqs = []
+    for g in prog.funcs:
+        m = re.search(r'<impl at (identity_credential/src/(?:credential|presentation)/[^:>]+\.rs):(\d+):(\d+): (\d+):(\d+)>::(eq|ne)$', g.name)
+        if m:
+            eqs.append((g.name, m.group(1), int(m.group(2)), int(m.group(3)), int(m.group(4)), int(m.group(5))))
+    need = {'issuer.rs', 'credential.rs', 'presentation.rs', 'subject.rs'}
+    have = {os.path.basename(e[1]) for e in eqs}
+    if not need <= have:
+        # a type lost its equality altogether would not compile where it is compared; a moved impl is simply not recognised here
+        ctx.add(Ob(name, 'M', INCONCLUSIVE, detail='no PartialEq::eq found for %s' % sorted(need - have)))
+        return
+    hand = []
+    for (fn_, path, l1, c1, l2, c2) in eqs:
+        try:
+            line = open(os.path.join(REPO, path), encoding='utf-8').read().split('\n')[l1 - 1]
+        except Exception:
+            line = ''
+        if not (l1 == l2 and line[c1 - 1:c2 - 1] == 'PartialEq' and 'derive' in line):
+            hand.append('%s (%s:%d)' % (fn_.split('::')[0], path, l1))
+    if not hand:
+        ctx.add(Ob(name, 'M', HELD, queries=len(eqs), sample='%d equality impls in the credential / presentation modules, all derived' % len(eqs)))
+        return
+    rep = {'scenario': 'claims', 'cex': {'only': '[consistency]'}}
+    res = run_replay(rep)
+    ctx.add(Ob(name, 'M', VIOLATED if res.get('reproduced') else INCONCLUSIVE,
+               detail='hand-written equality: %s; native: %s' % (', '.join(hand)[:200], res.get('detail', '')[:300]), replay=rep))
+
+
 def main(ctx):
     prog, info = load(CRATES, src_only=SRC)
     ctx.extra['mir'] = info
     ctx.outside += ['the JSON text form (serde rename / flatten / skip_serializing_if; that no member has a custom deserialiser is audited)', 'multi-subject credentials beyond their rejection',
                     'Timestamp::to_unix/from_unix being inverse on the range (C13)', 'Cow::into_owned / Borrowed being value-preserving']
     guarded(ctx, 'claims conversion wiring and consistency', 'M', lambda: run(ctx, prog))
+    guarded(ctx, 'structural equality', 'M', lambda: derived_equality(ctx, prog))
     for kind in ('credential', 'presentation'):
         guarded(ctx, '%s claims serde shape' % kind, 'M', lambda kind=kind: claims_serde_shape(ctx, prog, kind))
     # presentations: expiry, issuance (nbf before iat) and audience are converted inside the presentation validator, not in
